@@ -70,7 +70,7 @@ def main():
         "git -C /tmp/wt/%s apply patch.diff; /venv/bin/python demo.py (must fail); pytest suite (386 passed); git checkout -- .; demo.py (must pass)" % pid,
         "tools/mut.py %s --patch seeded/%s-%s/patch.diff (scratch copy of /repo + patch, ./check %s --tier quick)" % (pid, pid, x, pid),
     ]
-    notes = os.path.join(out, {"C": "NOTES2.md", "D": "NOTES2.md", "E": "NOTES3.md", "F": "NOTES3.md", "G": "NOTES4.md", "H": "NOTES4.md", "I": "NOTES5.md", "J": "NOTES5.md", "K": "NOTES6.md", "L": "NOTES6.md", "M": "NOTES7.md", "N": "NOTES7.md", "O": "NOTES8.md", "P": "NOTES8.md", "Q": "NOTES9.md", "R": "NOTES9.md"}.get(x, "NOTES.md"))
+    notes = os.path.join(out, {"C": "NOTES2.md", "D": "NOTES2.md", "E": "NOTES3.md", "F": "NOTES3.md", "G": "NOTES4.md", "H": "NOTES4.md", "I": "NOTES5.md", "J": "NOTES5.md", "K": "NOTES6.md", "L": "NOTES6.md", "M": "NOTES7.md", "N": "NOTES7.md", "O": "NOTES8.md", "P": "NOTES8.md", "Q": "NOTES9.md", "R": "NOTES9.md", "S": "NOTES10.md", "T": "NOTES10.md", "U": "NOTES11.md", "V": "NOTES11.md"}.get(x, "NOTES.md"))
     if os.path.exists(notes):
         shutil.copy(notes, os.path.join(d, "AGENT_NOTES.md"))
     meta["round"] = {"A": 1, "B": 1}.get(x, (ord(x) - ord("A")) // 2 + 1)
